@@ -73,7 +73,8 @@ PlanObj(s, e, L, k) ==
       pre == IF par.st = "missing" /\ ~par.inlink THEN ChainEvs(par.p, par.rest) ELSE <<>>
       dir == IF par.st = "missing" /\ ~par.inlink THEN ChainLast(par.p, par.rest) ELSE par.p
       q == Append(dir, LastOf(L))
-      mates == {m \in merged : Cset[m.k].grp = e.grp /\ e.grp # 0 /\ e.type = "file"}
+      \* os.link to a member on another filesystem fails with EXDEV and the next candidate is tried
+      mates == {m \in merged : Cset[m.k].grp = e.grp /\ e.grp # 0 /\ e.type = "file" /\ DevOf(s, m.p) = DevOf(s, q)}
   IN IF par.st \notin {"ok", "missing"} \/ (par.st = "ok" /\ ~IsDirAt(s, par.p)) \/ (par.st = "missing" /\ par.inlink)
      THEN [k |-> "error", evs |-> <<>>, q |-> <<>>]
      ELSE IF HasName(s, q) /\ ObjAt(s, q).type = "dir" THEN
@@ -114,9 +115,19 @@ Begin ==
                 /\ merged' = IF pl.k = "do" /\ e.type = "file" THEN merged \cup {[k |-> k, p |-> pl.q]} ELSE merged
   /\ UNCHANGED <<sel, ctx, fs, faulted, gap>>
 
+\* what the kernel does on creation below a set-gid directory: the group (and for directories the set-gid
+\* bit) is inherited from the parent, not taken from the creating process
+SetGid(m) == (m \div 1024) % 2 = 1
+Inh(s, ev) ==
+  IF "obj" \in DOMAIN ev /\ (ev.op # "open" \/ ev.created) /\ Parent(ev.p) # <<>> /\ HasName(s, Parent(ev.p))
+     /\ SetGid(ObjAt(s, Parent(ev.p)).mode)
+  THEN [ev EXCEPT !.obj.gid = ObjAt(s, Parent(ev.p)).gid,
+                  !.obj.mode = IF ev.obj.type = "dir" /\ ~SetGid(@) THEN @ + 1024 ELSE @]
+  ELSE ev
+
 Run ==
   /\ pc = "run"
-  /\ \/ LET r == SysStep(fs, Head(plan)) IN
+  /\ \/ LET r == SysStep(fs, Inh(fs, Head(plan))) IN
         /\ fs' = r.s /\ gap' = (gap \/ ~r.ok)
         /\ plan' = Tail(plan) /\ pc' = IF Tail(plan) = <<>> THEN "next" ELSE "run"
         /\ UNCHANGED <<sel, ctx, todo, merged, faulted>>
